@@ -37,7 +37,7 @@ Init ==
     /\ didReg = << >>
     /\ pnDenoms = << >> /\ pnTokens = << >> /\ pnIndex = {} /\ pnSupply = << >>
     /\ bal = [a \in Tracked |-> [d \in Denoms |-> IF a \in Accts THEN (IF d = "umed" THEN InitBal ELSE 1000) ELSE 0]]
-    /\ vest = {} /\ exists = Accts \cup {FeeColl, BurnMod}
+    /\ vest = {} /\ exists = Accts \cup {FeeColl}
     /\ supply = [d \in Denoms |-> IF d = "umed" THEN InitBal * Cardinality(Accts) + 1000001 ELSE 1000 * Cardinality(Accts)]
     /\ rest = [d \in Denoms |-> IF d = "umed" THEN 1000001 ELSE 0]
     /\ grants = {}
